@@ -9,7 +9,8 @@
 //	                                     results.  Every file A opens is used as a pause point.  (see gateMode)
 //	c28 <G> <iters> <seed> [flags]       flags (comma separated): serial | lockcompile | once (single baseline run)
 //	                                     stdin: one job per line  "<op> <path|-> [os=<target os>] [name=<virtual name>]"
-//	                                     op: build | run | fmt | vfs (api.BuildVFS of the built-in in-memory project)
+//	                                     op: build | buildfset | run | runwasm (BuildFile+Wat2Wasm+wazero.RunWasm) | fmt |
+//	                                         vfs (api.BuildVFS of the built-in in-memory project)
 //
 // Every Config is template.Clone() with only TargetOS changed — the template got its build tags by five appends (len 5,
 // cap 8), which is ordinary use of the public API; a callee that appends to / writes into the shared slice is visible to
@@ -39,6 +40,8 @@
 //	UNSTABLE <job index> <first> <second>
 //	WRONG <job index> <goroutine> <iteration> <hex baseline> <hex got>
 //	PANIC <job index> <goroutine> <iteration> <hex message + top frames>
+//	MUTATED <job index> <hex description>        a slice returned by an API call changed its bytes after the call returned
+//	RETAINED-CHECK <when> checked=<n> mutated=<m>
 //	BLOCKED <job index> <goroutine> <iteration> <phase: baseline|concurrent> <hex: last failed call before it>
 //	DONE calls=<n> wrong=<k> panics=<p> unstable=<u> blocked=<b>
 package main
@@ -52,6 +55,7 @@ import (
 	"math/rand"
 	"os"
 	"path/filepath"
+	"runtime"
 	"runtime/debug"
 	"strconv"
 	"strings"
@@ -173,6 +177,7 @@ func schedReplay(turns string) string {
 
 type job struct {
 	op, path, vname, src, os string
+	idx                      int
 }
 
 // ---- configs: clones of ONE template
@@ -236,6 +241,79 @@ func oneLine(s string) string {
 	return s
 }
 
+// ---- retention: every slice an API call returns is KEPT by the caller (as a server that caches / logs / streams results
+// does) together with its digest at the moment of return; after all other calls have finished — and again after further
+// calls and a runtime.GC() — the kept slices must still hold the same bytes.  A result that aliases a buffer which the
+// library recycles (sync.Pool, a reused module) is overwritten by a later call's data.
+type kept struct {
+	job    int
+	what   string
+	phase  string
+	parts  [][]byte
+	sumAt  string // digest at return
+	headAt string
+}
+
+var (
+	keepMu     sync.Mutex
+	keptAll    []*kept
+	keptBytes  int
+	curPhase   atomic.Value
+	maxKeepAll = 384 << 20
+)
+
+func head(parts [][]byte) string {
+	var b []byte
+	for _, p := range parts {
+		if len(p) > 48 {
+			p = p[:48]
+		}
+		b = append(b, p...)
+		b = append(b, '|')
+	}
+	return string(b)
+}
+
+func retain(j *job, what string, parts ...[]byte) {
+	n := 0
+	for _, p := range parts {
+		n += len(p)
+	}
+	if n == 0 {
+		return
+	}
+	keepMu.Lock()
+	defer keepMu.Unlock()
+	if keptBytes+n > maxKeepAll {
+		return
+	}
+	keptBytes += n
+	ph, _ := curPhase.Load().(string)
+	keptAll = append(keptAll, &kept{job: j.idx, what: what, phase: ph, parts: parts, sumAt: sha(parts...), headAt: head(parts)})
+}
+
+// verifyRetained: lines "MUTATED <job> <hex description>" for every kept result whose bytes changed since it was returned
+func verifyRetained(when string) (lines []string, checked int) {
+	keepMu.Lock()
+	defer keepMu.Unlock()
+	seen := map[string]bool{}
+	for _, k := range keptAll {
+		checked++
+		if now := sha(k.parts...); now != k.sumAt {
+			key := fmt.Sprintf("%d/%s", k.job, k.what)
+			if seen[key] {
+				continue
+			}
+			seen[key] = true
+			d := fmt.Sprintf("%s returned by job %d during the %s phase, re-read %s: at return %q, now %q", k.what, k.job, k.phase, when, k.headAt, head(k.parts))
+			lines = append(lines, fmt.Sprintf("MUTATED %d %s", k.job, hex.EncodeToString([]byte(d))))
+			k.sumAt = sha(k.parts...) // report each mutation once
+			k.headAt = head(k.parts)
+		}
+	}
+	return
+}
+
 // exec runs one API call and canonicalises its result.  A panic is a result too ("panic <message>"): legal programs can
 // make the backend panic (unsafe.MakeString -> panic("TODO…")), alone as well as concurrently; `where` carries the frames.
 func exec(j *job, app fs.FS) (res string, where string) {
@@ -268,7 +346,34 @@ func exec(j *job, app fs.FS) (res string, where string) {
 		if err != nil {
 			return "err " + oneLine(err.Error()), ""
 		}
+		retain(j, "api.BuildFile wat", wat)
 		return "ok " + sha([]byte(mainFn), wat), ""
+	case "buildfset":
+		// BuildFile again, this time keeping the (small) position table it returns
+		_, _, fset, err := api.BuildFile(cfg, j.vname, j.src)
+		if err != nil {
+			return "err " + oneLine(err.Error()), ""
+		}
+		retain(j, "api.BuildFile fset", fset)
+		return "ok " + sha(fset), ""
+	case "runwasm":
+		// the steps of api.RunCode through the lower-level entry points, stdout and stderr kept separately
+		mainFn, wat, fset, err := api.BuildFile(cfg, j.vname, j.src)
+		if err != nil {
+			return "err " + oneLine(err.Error()), ""
+		}
+		bin, err := watutil.Wat2Wasm(j.vname, wat)
+		if err != nil {
+			return "err " + oneLine(err.Error()), ""
+		}
+		so, se, err := wazero.RunWasm(j.vname, bin, fset, mainFn)
+		retain(j, "wazero.RunWasm stdout", so)
+		retain(j, "wazero.RunWasm stderr", se)
+		retain(j, "watutil.Wat2Wasm binary", bin)
+		if err != nil {
+			return "err " + oneLine(err.Error()) + " " + sha(so, se), ""
+		}
+		return "ok " + sha(so, se), ""
 	case "run":
 		var out []byte
 		var err error
@@ -277,6 +382,7 @@ func exec(j *job, app fs.FS) (res string, where string) {
 		} else {
 			out, err = api.RunCode(cfg, j.vname, j.src)
 		}
+		retain(j, "api.RunCode output", out)
 		if err != nil {
 			return "err " + oneLine(err.Error()) + " " + sha(out), ""
 		}
@@ -286,6 +392,7 @@ func exec(j *job, app fs.FS) (res string, where string) {
 		if err != nil {
 			return "err " + oneLine(err.Error()), ""
 		}
+		retain(j, "api.FormatCode text", []byte(s)) // (a Go string is immutable; the copy only takes part in the bookkeeping)
 		return "ok " + sha([]byte(s)), ""
 	case "vfs":
 		if app == nil {
@@ -295,6 +402,7 @@ func exec(j *job, app fs.FS) (res string, where string) {
 		if err != nil {
 			return "err " + oneLine(err.Error()), ""
 		}
+		retain(j, "api.BuildVFS wat", wat)
 		return "ok " + sha(wat) + " variants=" + markers(wat), ""
 	}
 	return "bad-op", ""
@@ -350,6 +458,7 @@ func readJobs() []*job {
 				j.vname = x[5:]
 			}
 		}
+		j.idx = len(jobs)
 		jobs = append(jobs, j)
 	}
 	return jobs
@@ -540,6 +649,7 @@ func main() {
 	base := make([]string, len(jobs))
 	usable := make([]bool, len(jobs))
 	unstable := 0
+	curPhase.Store("sequential baseline")
 	for i, j := range jobs {
 		wasLocked := lockCompile
 		lockCompile = false // the baseline is always the PUBLIC api, alone
@@ -566,6 +676,12 @@ func main() {
 		usable[i] = true
 		fmt.Fprintf(out, "BASE %d %s\n", i, r1)
 	}
+	// results kept during the SEQUENTIAL baseline must have survived the later baseline calls
+	ml, nchk := verifyRetained("after the sequential baseline")
+	for _, l := range ml {
+		fmt.Fprintln(out, l)
+	}
+	fmt.Fprintf(out, "RETAINED-CHECK sequential checked=%d mutated=%d\n", nchk, len(ml))
 	uni0 := types.VerifC28UniverseChildren()
 	fmt.Fprintf(out, "UNIVERSE-CHILDREN-AFTER-BASELINE %d\n", uni0)
 	out.Flush()
@@ -632,11 +748,28 @@ func main() {
 			}
 		}(g)
 	}
+	curPhase.Store("concurrent")
 	close(start)
 	wg.Wait()
 	for _, l := range lines {
 		fmt.Fprintln(out, l)
 	}
+	ml, nchk = verifyRetained("after all concurrent calls finished")
+	for _, l := range ml {
+		fmt.Fprintln(out, l)
+	}
+	fmt.Fprintf(out, "RETAINED-CHECK concurrent checked=%d mutated=%d\n", nchk, len(ml))
+	// further calls + GC, then once more
+	curPhase.Store("trailing sequential")
+	for k := len(idx) - 1; k >= 0 && k >= len(idx)-6; k-- {
+		execTimed(jobs[idx[k]], nil, watchdog)
+	}
+	runtime.GC()
+	ml, nchk = verifyRetained("after further calls and runtime.GC()")
+	for _, l := range ml {
+		fmt.Fprintln(out, l)
+	}
+	fmt.Fprintf(out, "RETAINED-CHECK trailing checked=%d mutated=%d\n", nchk, len(ml))
 	fmt.Fprintf(out, "UNIVERSE-CHILDREN-AT-END %d\n", types.VerifC28UniverseChildren())
 	fmt.Fprintf(out, "DONE calls=%d wrong=%d panics=%d unstable=%d blocked=0\n", calls, wrong, panics, unstable)
 }
